@@ -220,6 +220,25 @@ def wl_datetimes(ctx, rng, i):
                 if got != exp:
                     ctx.violation(classify_text_mismatch(got, exp), "format_datetime(STIXdatetime(%s/%s)) gave %r, expected %r" % (p, c, got, exp),
                                   {"input": repr(x), "precision": p, "constraint": c, "got": got, "expected": exp, "route": "STIXdatetime direct"})
+        # both instants of a local time that occurs twice, written one after the other: equal as datetimes (comparison and hash ignore
+        # fold within one zone object), an hour apart as instants -- each is written as the instant it denotes
+        if form.startswith("aware-zoneinfo-fold"):
+            twin = x.replace(fold=1 - x.fold)
+            for p, c in PC[:3] + [("any", "exact")]:
+                for val in (x, twin):
+                    for how, arg in (("plain datetime", val), ("STIXdatetime", u.STIXdatetime(val, precision=p, precision_constraint=c))):
+                        ctx.ev()
+                        ctx.count("fold_twins_written")
+                        try:
+                            g2 = u.format_datetime(arg)
+                        except Exception as e:
+                            ctx.violation("raised-on-valid-input", "format_datetime raised %s on a %s in a zone with daylight saving time" % (type(e).__name__, how), {"input": repr(val), "exception": repr(e)})
+                            continue
+                        arg_us = ts.datetime_us(arg)
+                        e2 = ts.format_us(arg_us, p, c) if how == "STIXdatetime" else ts.format_us(arg_us, "any", "exact")
+                        if g2 != e2:
+                            ctx.violation(classify_text_mismatch(g2, e2) + ":fold-twin", "the %s %r (fold=%d) is written %r, the instant it denotes is %r" % (how, val, val.fold, g2, e2),
+                                          {"input": repr(val), "fold": val.fold, "route": how, "precision": p, "constraint": c, "got": g2, "expected": e2})
         # an object whose timestamp slot picks its precision from the value given (2.0 marking-definition.created): what it writes
         # is read back and written again unchanged
         if form != "date" and ctx.counters.get("evaluations", 0) % 7 == 0:
